@@ -35,9 +35,10 @@ def run_matcher(kind, mname, thr, pred, ref):
          "m2o": lambda: NaiveThresholdMatching(impl.metric(mname), thr, True),
          "merge": lambda: MaximizeMergeMatching(impl.metric(mname), thr)}[kind]()
     with contextlib.redirect_stdout(io.StringIO()), np.errstate(all="ignore"):
-        up = UnmatchedInstancePair(pred.copy(), ref.copy())
+        # copies that keep the memory layout of the caller's arrays (order="K"): layout is part of what the matcher receives
+        up = UnmatchedInstancePair(pred.copy(order="K"), ref.copy(order="K"))
         lm = dict(m._match_instances(up).get_one_to_one_dictionary())
-        out = m.match_instances(UnmatchedInstancePair(pred.copy(), ref.copy()))
+        out = m.match_instances(UnmatchedInstancePair(pred.copy(order="K"), ref.copy(order="K")))
     return {int(k): int(v) for k, v in lm.items()}, out
 
 
@@ -105,6 +106,23 @@ def gen(ctx):
                     pred[0, 3 * i:3 * i + 2] = rng.randint(1, 200)
             ref[0, 3 * k:3 * k + 2] = big               # missed reference
             cases.append((pred, ref))
+    # label values beyond 2^24 (uint32/uint64) with prediction labels that are a rotation of the reference labels: every new label
+    # of one prediction is the old label of another one (chains), plus unmatched predictions drawn from the same pool
+    for dt, top in ([("uint32", 20_000_000), ("uint64", 2 ** 24 + 5), ("uint32", 2 ** 24)] if ctx.tier == "quick" else
+                    [("uint32", 20_000_000), ("uint64", 2 ** 24 + 5), ("uint32", 2 ** 24), ("uint64", 30_000_000), ("uint32", 2 ** 25 + 1)]):
+        k = rng.randint(2, 4)
+        labs = sorted(set([top] + rng.sample(range(1, 9), k - 1)))
+        k = len(labs)
+        n = 3 * (k + 2) + 1
+        ref = np.zeros((1, n), dt); pred = np.zeros((1, n), dt)
+        rot = labs[1:] + labs[:1]
+        for i in range(k):
+            ref[0, 3 * i:3 * i + 2] = labs[i]
+            pred[0, 3 * i:3 * i + 2] = rot[i]
+        extra = [x for x in (top - 1, 9, 10) if x not in labs][:2]
+        for j, x in enumerate(extra):
+            pred[0, 3 * (k + j):3 * (k + j) + 2] = x          # unmatched
+        cases.append((pred, ref))
     if ctx.tier == "thorough":   # > 255 / > 65535 instances
         for dt, cnt in [("uint16", 300), ("uint32", 66000)]:
             ref = np.zeros((1, 2 * cnt + 4), dt)
@@ -119,6 +137,15 @@ def gen(ctx):
             hi = int(np.iinfo(r.dtype).max) if r.dtype != np.uint64 else 2 ** 22
             hi = min(hi, 2 ** 22)
             r = np.where(r != 0, (hi - int(r.max())) + r.astype(np.int64), 0).astype(r.dtype)   # shift labels to the top of the dtype
+        if p.ndim >= 2 and min(p.shape) >= 2 and rng.random() < 0.35:
+            # memory layout is not part of the input: Fortran-ordered / transposed-view prediction (and sometimes reference)
+            lay = rng.choice(["predF", "bothF", "predT"])
+            if lay == "predT":
+                p = np.ascontiguousarray(np.transpose(p)).T                 # same logical array, transposed storage
+            else:
+                p = np.asfortranarray(p)
+                if lay == "bothF":
+                    r = np.asfortranarray(r)
         cases.append((p, r))
     return cases
 
